@@ -1,6 +1,7 @@
 import OdakModel.Exec.OpsGenState
 import OdakModel.Generated.PropagatorObject
 import OdakModel.Generated.LossObjects
+import OdakModel.Generated.MeshObject
 /-! Driver ops that RUN the object models regenerated from the Python source (work package 13) on abstract tensors - tokens carrying a
     content number, a shape and the elements stored into them - and print, per call, the attributes the step function stored (`x`), the
     attribute objects it wrote in place (`x[]`), and what kind of thing it returned: `V` a value (a new tensor), `N` a new object, `A:x`
@@ -155,6 +156,52 @@ def opsGenObjLoss : List (String × Handler) := [
           (if x.getD 4 0 != 0 then [("psnr", 1000000)] else []) "mean" false () with
       | none => "RAISE"
       | some r => "|".intercalate (showLog r.2.2.2 :: pmplRun x 6 n r.1 r.2.1 []))
+]
+
+/-! ### the planar mesh -/
+
+def meshTokOps : MeshOps OTok Int :=
+  { lit := litMicro, scalar := OTok.leaf, int := fun i => OTok.leaf (i * 1000000), ofBool := fun b => OTok.leaf (if b then 1 else 0),
+    truthy := fun t => t.val != 0, rofInt := fun i => i * 1000000, rtruthy := fun r => r != 0,
+    radd := fun a b => a + b, rsub := fun a b => a - b, rmul := fun a b => a * b / 1000000, rdiv := microDiv, rneg := fun a => -a,
+    add := OTok.mix, sub := fun a b => OTok.map1 1 (OTok.mix a b), mul := fun a b => OTok.map1 2 (OTok.mix a b),
+    div := fun a b => OTok.map1 3 (OTok.mix a b), neg := OTok.map1 4, powInt := fun a n => OTok.map1 (5 + n) a,
+    getIdx := OTok.get, setIdx := OTok.set, dim := fun t k => t.shape.getD k.toNat 0, rank := fun t => t.shape.length,
+    toInt := fun t => t.val, zerosT := fun l => .mk 0 (l.map OTok.val) [], linspaceT := fun a b n => .mk (a.val * 3 + b.val * 5 + n.val + 1) [n.val] [],
+    meshgridIJ := fun x y => (.mk (x.val * 7 + 1) (x.shape ++ y.shape) [], .mk (y.val * 7 + 2) (x.shape ++ y.shape) []),
+    unsqueeze := fun t k => .mk t.val (if k = 0 then 1 :: t.shape else t.shape ++ [1]) [], view := fun t s => .mk (t.val * 3 + 4) s [],
+    cat := fun l k => .mk (l.foldl (fun a t => a * 41 + t.val) (k + 9)) [] [],
+    triangulate := fun s n a => OTok.map1 71 (OTok.mix (OTok.mix s n) a), mirrorLoop := fun r t => (OTok.map1 72 (OTok.mix r t), OTok.map1 73 (OTok.mix r t)) }
+
+partial def meshRun (x : Array Int) (off n : Nat) (s : PlanarMeshAttrs OTok Int) (h : Heap OTok) (acc : List String) : List String :=
+  if n = 0 then acc.reverse
+  else
+    let kind := x.getD off 0
+    if kind = 0 then
+      match meshMirrorG meshTokOps s h (.mk (x.getD (off + 1) 0) [2, 2, 3] []) with
+      | none => ("RAISE" :: acc).reverse
+      | some r => meshRun x (off + 2) (n - 1) r.1 r.2.1 ((showLog r.2.2.2 ++ ";V,V") :: acc)
+    else if kind = 1 then
+      match meshGetTrianglesG meshTokOps s h with
+      | none => ("RAISE" :: acc).reverse
+      | some r => meshRun x (off + 1) (n - 1) r.1 r.2.1 ((showLog r.2.2.2 ++ ";V") :: acc)
+    else if kind = 2 then
+      match meshGetSquaresG meshTokOps s h with
+      | none => ("RAISE" :: acc).reverse
+      | some r => meshRun x (off + 1) (n - 1) r.1 r.2.1 ((showLog r.2.2.2 ++ ";V") :: acc)
+    else      -- an optimiser step: the heights tensor is written in place by the caller
+      match s.heights with
+      | none => ("RAISE" :: acc).reverse
+      | some l => meshRun x (off + 2) (n - 1) s (h.set l (.mk (x.getD (off + 1) 0) [3, 3, 1] [])) ("-;X" :: acc)
+
+def opsGenObjMesh : List (String × Handler) := [
+  ("gmo_fields", fun _ => ",".intercalate meshFields),
+  -- gmo_seq heights_given n {0 content | 1 | 2 | 3 content}*n  ->  init log | per call: stored attributes ; kinds returned
+  ("gmo_seq", fun a => let x := a.toArray
+    let h0 : Heap OTok := ⟨[.mk 701 [2] [], .mk 702 [2] [], .mk 703 [3] [], .mk 704 [3] [], .mk 705 [3, 3, 1] []]⟩
+    match meshInitG meshTokOps PlanarMeshAttrs.empty h0 0 1 2 3 () (if x.getD 0 0 != 0 then some 4 else none) with
+    | none => "RAISE"
+    | some r => "|".intercalate (showLog r.2.2.2 :: meshRun x 2 (x.getD 1 0).toNat r.1 r.2.1 []))
 ]
 
 def opsGenObj : List (String × Handler) := [
